@@ -181,14 +181,17 @@ def run(ctx):
         if isinstance(st, ast.If) and 'coordkeys' in norm(st.test) and 'coords' in norm(st.test):
             cp = st
     if cp is None:
-        raise AnalysisError('construct not understood: coordinate pass-through branch of mask()')
-    has_cont = any(isinstance(s, ast.Continue) for s in cp.body)
-    masked_in = [c for s in cp.body for c in walk_expr(s) if isinstance(c, ast.Call) and 'masked_' in (dotted(c.func) or '')]
+        ctx.violation(Finding('R-COORDPASS', FILES, q, 'mask(): coordinate branch', 'mask() has no branch that passes coordinate variables through unmasked '
+                              '(if vk in coordkeys and not coords: ...; continue)', lineno=fn.lineno))
+    has_cont = cp is not None and any(isinstance(s, ast.Continue) for s in cp.body)
+    masked_in = [c for s in (cp.body if cp is not None else []) for c in walk_expr(s) if isinstance(c, ast.Call) and 'masked_' in (dotted(c.func) or '')]
     first_mask_line = min([c.lineno for c in walk_expr(fn) if isinstance(c, ast.Call) and 'masked_' in (dotted(c.func) or '')])
-    assign_plain = any(isinstance(s, ast.Assign) and isinstance(s.targets[0], ast.Subscript) and
-                       isinstance(s.value, ast.Subscript) for s in cp.body)
-    neg_ok = 'not coords' in norm(cp.test) and ' in coordkeys' in norm(cp.test)
-    if has_cont and not masked_in and cp.lineno < first_mask_line and assign_plain and neg_ok:
+    assign_plain = cp is not None and any(isinstance(s, ast.Assign) and isinstance(s.targets[0], ast.Subscript) and
+                                          isinstance(s.value, ast.Subscript) for s in cp.body)
+    neg_ok = cp is not None and 'not coords' in norm(cp.test) and ' in coordkeys' in norm(cp.test)
+    if cp is None:
+        pass
+    elif has_cont and not masked_in and cp.lineno < first_mask_line and assign_plain and neg_ok:
         ctx.ok('R-COORDPASS', 'mask() coordinate branch', where, 'coordinate variables assigned unmodified and continue before any masked_* call')
     else:
         ctx.violation(Finding('R-COORDPASS', FILES, q, cp, 'coordinate variables are not passed through unmasked before the masked_* chain'))
